@@ -334,7 +334,7 @@ def lifecycle(case, t, opi, kind, sp, counter):
     if e.time_fail is not None and case["format"] == "json" and JSON_TIMER_BAILS[0]:
         e.status = "err"
     e.fields = [("message", kind)]
-    if kind == "close" and case["opts"].get("timer"):
+    if kind == "close" and sp.get("timed", case["opts"].get("timer")):     # the span carries Timings (decided at its creation)
         e.fields += [("time.busy", "T"), ("time.idle", "T")]
     e.jfields = list(e.fields)
     e.explicit = True
@@ -373,8 +373,14 @@ def record_op(case, sp, op, side, t, opi):
         sp["groups"].append([(op["f"], r)])
 
 
-def thread_emissions(case, t, counter, side=None):
-    """top-level things reaching on_event on thread t, in program order: Em objects and ('direct', text)"""
+CLOSE_GATED = [False]          # on_close writes the close record only for a span with Timings while fmt_timing is on (read from the source in run())
+
+
+def thread_emissions(case, t, counter, side=None, follow_gated=False):
+    """top-level things reaching on_event on thread t, in program order: Em objects and ('direct', text).
+    By the property text: one record for every lifecycle point configured AT THE TIME IT OCCURS ({"op":"reconf"} changes the
+    configuration of a reloadable layer).  follow_gated: what the SOURCE's on_close shape does instead (model side of the
+    JSON correspondence only, never the oracle)."""
     side = side if side is not None else []
     case["_tctr"] = [0]
     se = set(case["opts"].get("span_events", []))
@@ -395,11 +401,16 @@ def thread_emissions(case, t, counter, side=None):
         # exit is reported while the span is still current; close after
         for k in ("exit", "close"):
             if k in se:
+                if k == "close" and follow_gated and case["opts"].get("timer") and not sp["timed"]:
+                    continue
                 out.append(lifecycle(case, t, opi, k, sp, counter))
 
     for opi, op in enumerate(prog):
         o = op["op"]
-        if o == "enter":
+        if o == "reconf":
+            se.clear()
+            se.update(op["se"])
+        elif o == "enter":
             cs = case["callsites"][op["cs"]]
             _, chain = scope_of(op.get("parent"))
             g0 = []
@@ -407,7 +418,8 @@ def thread_emissions(case, t, counter, side=None):
                 r = render_value(name, v)
                 if r is not None:
                     g0.append((name, r))
-            sp = {"cs": op["cs"], "name": cs["name"], "target": cs["target"], "groups": [g0], "chain": chain}
+            sp = {"cs": op["cs"], "name": cs["name"], "target": cs["target"], "groups": [g0], "chain": chain,
+                  "timed": bool(case["opts"].get("timer")) and "close" in se}       # on_new_span: Timings iff fmt_timing && trace_close() NOW
             for k in ("new", "enter"):
                 if k in se:
                     out.append(lifecycle(case, t, opi, k, sp, counter))
@@ -846,13 +858,13 @@ def routed(case, e):
     return denote(case["writer"], e.meta)
 
 
-def case_items(case):
+def case_items(case, follow_gated=False):
     """per thread: what reaches the layer (Em objects) and the direct ops, in program order; direct tuples get the thread appended"""
     counter = [0]
     res = []
     side = []
     for t in range(len(case["threads"])):
-        items = thread_emissions(case, t, counter, side)
+        items = thread_emissions(case, t, counter, side, follow_gated)
         res.append([it + (t,) if isinstance(it, tuple) else it for it in items])
     case["_record_unwinds"] = side
     return res
@@ -1013,6 +1025,80 @@ def gen_lifecycle_cases(rng):
                      {"op": "exit"}, {"op": "exit"}]
             c["threads"][0] = extra + c["threads"][0]
             cases.append(c)
+    return cases
+
+
+def gen_reconf_cases(rng, nrandom):
+    """a RELOADABLE fmt layer (behind reload::Subscriber) whose span events are reconfigured while spans are alive:
+    {"op":"reconf","se":mask,"how":"modify"} = Handle::modify(|s| s.set_span_events(mask)), "how":"reload" = Handle::reload(new fmt
+    subscriber configured with mask).  Sweep: 4 formats x timer on/off x modify/reload, a span created BEFORE the switch (under a
+    rotating initial mask without CLOSE) and one AFTER it, a target mask that contains CLOSE, both closed afterwards; then random
+    histories (random masks in both directions, nesting <= 3, events, records).  One thread (the configuration is shared)."""
+    names = ["new", "enter", "exit", "close"]
+    cases = []
+
+    def base(fmt, timer, plain_writer):
+        cb = CaseBuilder(rng)
+        c = {"id": 0, "kind": "reconf", "format": fmt, "opts": gen_opts(rng, "content"), "nsinks": 1, "writer": {"k": "sink", "i": 0},
+             "callsites": cb.callsites, "threads": [[]], "global": False, "reloadable": True}
+        if not plain_writer:
+            c["nsinks"] = rng.randint(1, 3)
+            c["writer"] = gen_wexp(rng, rng.choice([1, 2, 3]), c["nsinks"])
+        c["opts"]["timer"] = timer
+        c["opts"]["ansi"] = False
+        return c, cb
+
+    def ev(cb, seqc, text):
+        seqc[0] += 1
+        e = cb.cs("event", "event e0", "app", 3, ["seq", "message"])
+        return {"op": "event", "cs": e, "vals": [{"i": 170000 + seqc[0]}, {"d": text}], "parent": None}
+
+    def enter(cb):
+        sc = cb.span_cs()
+        return {"op": "enter", "cs": sc, "vals": [gen_value(rng, n) for n in cb.callsites[sc]["fields"]], "parent": None}
+
+    rot = rng.randrange(8)
+    k = 0
+    for fmt in ("full", "compact", "pretty", "json"):
+        for timer in (True, False):
+            for how in ("modify", "reload"):
+                c, cb = base(fmt, timer, True)
+                seqc = [0]
+                init = [[], ["new"], ["enter", "exit"], ["new", "enter"], ["exit"], [], ["enter"], ["new", "exit"]][(k + rot) % 8]
+                extra = [n for n in names[:3] if rng.random() < 0.4]
+                c["opts"]["span_events"] = init
+                c["threads"][0] = [enter(cb), ev(cb, seqc, "early is running"), {"op": "reconf", "se": extra + ["close"], "how": how},
+                                   enter(cb), ev(cb, seqc, "late is running"), {"op": "exit"}, {"op": "exit"}, ev(cb, seqc, "after")]
+                cases.append(c)
+                k += 1
+    for _ in range(nrandom):
+        c, cb = base(rng.choice(["full", "compact", "pretty", "json"]), rng.random() < 0.65, rng.random() < 0.5)
+        seqc = [0]
+        prog = []
+        depth = 0
+        fields = []
+        for _ in range(rng.randint(8, 22)):
+            r = rng.random()
+            if r < 0.25 and depth < 3:
+                op = enter(cb)
+                fields.append(cb.callsites[op["cs"]]["fields"])
+                prog.append(op)
+                depth += 1
+            elif r < 0.45 and depth > 0:
+                prog.append({"op": "exit"})
+                fields.pop()
+                depth -= 1
+            elif r < 0.65:
+                prog.append({"op": "reconf", "se": [n for n in names if rng.random() < 0.5], "how": rng.choice(["modify", "modify", "reload"])})
+            elif r < 0.72 and depth > 0 and fields[-1]:
+                f = rng.choice(fields[-1])
+                v = gen_value(rng, f)
+                if not any(x in v for x in ("panic", "err", "nested")):
+                    prog.append({"op": "record", "f": f, "v": v})
+            else:
+                prog.append(ev(cb, seqc, "running"))
+        c["threads"][0] = prog
+        cases.append(c)
     return cases
 
 
@@ -1326,6 +1412,9 @@ def model_ops(case, t):
         p = stack[parent]
         return [snap(x) for x in p["chain"]] + [snap(p)], p["chain"] + [p]
 
+    rel = bool(case.get("reloadable"))       # model ops are [rop]s: span ids, RNew / RClose / RReconf
+    nid = [0]
+
     def span_op(kind, sp):
         cs = case["callsites"][sp["cs"]]
         sc = [snap(x) for x in sp["chain"]] + [snap(sp)]
@@ -1333,6 +1422,13 @@ def model_ops(case, t):
         if kind in se_on:        # only a configured lifecycle point reaches a formatter (and asks the timer)
             tf = timer_fault(case, t, tidx[0])
             tidx[0] += 1
+        if rel:
+            if kind == "new":
+                sp["id"] = nid[0]
+                nid[0] += 1
+            segs[-1][1].append({"new": "RNew %d %%s %%s" % sp["id"], "close": "RClose %d %%s %%s" % sp["id"]}.get(kind, "ROp (OpSpan %s %%s %%s)" % LK[kind])
+                               % (coq_emeta(cs, tf), coq_scope(sc)))
+            return
         segs[-1][1].append("OpSpan %s %s %s" % (LK[kind], coq_emeta(cs, tf), coq_scope(sc)))
 
     for op in prog:
@@ -1363,7 +1459,10 @@ def model_ops(case, t):
             sc, _ = scope_of(op.get("parent"))
             par = op.get("parent")
             root = par is not None and (par < 0 or par >= len(stack))
-            segs[-1][1].append("OpEvent %s" % coq_emission(case, op["cs"], op["vals"], sc, scope_of(None)[0], root, t, tidx))
+            segs[-1][1].append(("ROp (OpEvent %s)" if rel else "OpEvent %s") % coq_emission(case, op["cs"], op["vals"], sc, scope_of(None)[0], root, t, tidx))
+        elif o == "reconf":
+            se_on = set(op["se"])
+            segs[-1][1].append("RReconf (SpanCfg %s %s %s %s)" % tuple(cb_(k in se_on) for k in ("new", "enter", "exit", "close")))
         elif o == "direct":
             segs.append(("direct", op["text"]))
             segs.append(("ops", []))
@@ -1737,6 +1836,8 @@ def run(ctx):
     policy = re.search(r"clear_policy : policy := (\w+)\.", text).group(1)
     tee_both = re.search(r"tee_runs_both : bool := (\w+)\.", text).group(1)
     JSON_TIMER_BAILS[0] = re.search(r"json_timer_bails : bool := (\w+)\.", text).group(1) == "true"
+    CLOSE_GATED[0] = re.search(r"close_timing_gated : bool := (\w+)\.", text).group(1) == "true"
+    rep.extra["close_timing_gated_in_tree"] = CLOSE_GATED[0]
     rep.extra["timer_fallback_in_tree"] = re.search(r"timer_fallback : bool := (\w+)\.", text).group(1)
     rep.extra["clear_policy_in_tree"] = policy
     rep.extra["tee_runs_both_in_tree"] = tee_both
@@ -1782,6 +1883,7 @@ def run(ctx):
         for _ in range(scale):
             cases += gen_teefault_cases(rng)
         cases += gen_lifecycle_cases(rng)
+        cases += gen_reconf_cases(rng, 16 * scale)
         cases += gen_race_cases(rng, 6 * scale)
         cases += gen_timerfault_cases(rng, 16 * scale)
         poison = gen_poison_cases(rng, 8 * scale)
@@ -1813,7 +1915,7 @@ def run(ctx):
     # ---- expectations (python bookkeeping), oracle
     per_case = {}
     f9_counter = [0]
-    CASE_KEYS = ("format", "opts", "nsinks", "sink_kinds", "writer", "callsites", "threads", "faults", "plans", "timer_faults", "global", "pl")
+    CASE_KEYS = ("format", "opts", "nsinks", "sink_kinds", "writer", "callsites", "threads", "faults", "plans", "timer_faults", "global", "pl", "reloadable")
     for c in cases:
         cid = c["id"]
         o = obs.get(cid)
@@ -1890,6 +1992,7 @@ def run(ctx):
     requires = ("From Coq Require Import String.\nFrom TV Require Import Fmt.RecordEval.\nLocal Open Scope N_scope.\nLocal Open Scope string_scope.\nLocal Open Scope list_scope.\n"
                 "Definition B := str.\n")
     terms = []
+    per_case_model = {}
     for c in cases:
         cid = c["id"]
         if cid not in per_case or obs.get(cid) is None:
@@ -1898,8 +2001,11 @@ def run(ctx):
         W = coq_wexp(c["writer"])
         opts = c["opts"]
         lie = cb_(opts.get("lie"))
+        if c.get("reloadable") and CLOSE_GATED[0] and c["format"] not in BYTE_FORMATS:
+            # JSON (opaque chunks): the model side follows the on_close shape read from the source; the oracle above never does
+            per_case_model[cid] = case_items(c, follow_gated=True)
         for t in range(len(c["threads"])):
-            segs = segments(per_case[cid][t])
+            segs = segments(per_case_model.get(cid, per_case[cid])[t])
             parts = []
             if c["format"] in BYTE_FORMATS:
                 th = "(Thr %s %s)" % (B("wk%02d" % t), B(o["tids_plain" if c["format"] == "pretty" else "tids"][t]))
@@ -1910,7 +2016,12 @@ def run(ctx):
                 for (kind, payload), (_, sp) in zip(mops, segs):
                     if kind == "ops":
                         if payload:
-                            if c.get("pl"):
+                            if c.get("reloadable"):
+                                if c["format"] == "pretty":
+                                    parts.append("eval_pretty_r %s %s %s %s %s [%s]" % (lie, O, SC, W, th, "; ".join(payload)))
+                                else:
+                                    parts.append("eval_thread_r %s %s %s %s %s %s [%s]" % (lie, "Full" if c["format"] == "full" else "Compact", O, SC, W, th, "; ".join(payload)))
+                            elif c.get("pl"):
                                 if c["format"] == "pretty":
                                     parts.append("eval_pretty_pl %s %s %s %s %s [%s]" % (lie, O, SC, W, th, "; ".join(payload)))
                                 else:
@@ -1955,7 +2066,7 @@ def run(ctx):
                 if c["format"] in BYTE_FORMATS:
                     iv = encode_observed(c, calls)
                 else:
-                    iv = opaque_observed(c, per_case[cid][t], calls)
+                    iv = opaque_observed(c, per_case_model.get(cid, per_case[cid])[t], calls)
                 ncmp += 1
                 if mv != iv:
                     k = next((i for i, (a, b) in enumerate(zip(mv, iv)) if a != b), min(len(mv), len(iv)))
